@@ -404,18 +404,17 @@ Definition wf_seg (text : list chr) (s : seg) : Prop :=
    - a text segment shows text[o:e]; character i occupies c_enc(i) bytes, all carrying the
      attribute of character i (rle_get_at attrs i, None past the end of the runs);
    - inserted text (ellipsis) takes the attribute at its text offset (an insert whose text is
-     empty is treated as a pad); a pad standing for half a wide character takes the attribute
-     at its text offset (None at offset 0: "elif s.offs" is false there);
+     empty is treated as a pad); a pad (sc, offs) - the blank standing for half a wide
+     character - takes the attribute at its text offset, offset 0 included;
    - alignment padding (sc, None) carries None *)
 Definition seg_spec (text : list chr) (attrs : rle) (s : seg) : list attr :=
   match s with
   | SText _ o e => bytes_of (sub text o e) (map (rle_get_at attrs) (zrange' o e))
   | SIns sc o txt ilen =>
-      if rc_len txt =? 0 then
-        (if o =? 0 then repeat None (Z.to_nat sc) else repeat (rle_get_at attrs o) (Z.to_nat sc))
+      if rc_len txt =? 0 then repeat (rle_get_at attrs o) (Z.to_nat sc)
       else repeat (rle_get_at attrs o) (Z.to_nat ilen)
   | SPad sc None => repeat None (Z.to_nat sc)
-  | SPad sc (Some o) => if o =? 0 then repeat None (Z.to_nat sc) else repeat (rle_get_at attrs o) (Z.to_nat sc)
+  | SPad sc (Some o) => repeat (rle_get_at attrs o) (Z.to_nat sc)
   end.
 
 (* what is known of the per-character data: no negative lengths, and a byte of a bytes text /
@@ -487,29 +486,16 @@ Proof.
     destruct (sc <=? 0) eqn:E0; [lia|]. change (0 =? 0) with true. cbn [negb].
     destruct (rc_len txt =? 0) eqn:E1; cbn [negb].
     + (* an insert with empty text behaves as a pad at its offset *)
-      destruct (o =? 0) eqn:E2; cbn [negb].
-      * destruct (sc =? 0) eqn:E3; [lia|]. cbn [negb].
-        eexists. split; [reflexivity|]. cbn [l_attr l_aw]. split; [|repeat split; try assumption].
-        -- rewrite expand_app. cbn [expand]. now rewrite app_nil_r.
-        -- apply nonneg_app. split; [assumption|]. apply nonneg_cons; cbn [snd]; split; [lia | constructor].
-        -- apply Forall_app. split; [assumption|]. constructor; [cbn [snd]; lia | constructor].
-      * destruct (sc =? 0) eqn:E3; [lia|]. cbn [negb].
-        destruct (attrrange_point isb text attrs (l_aw ls) (l_attr ls) o sc Hn Haw Hla Hz H2 ltac:(lia)) as (la & st' & E & X & N & Z & S).
-        rewrite E. eexists. split; [reflexivity|]. cbn [l_attr l_aw]. split; [exact X | repeat split; assumption].
+      destruct (sc =? 0) eqn:E3; [lia|]. cbn [negb].
+      destruct (attrrange_point isb text attrs (l_aw ls) (l_attr ls) o sc Hn Haw Hla Hz H2 ltac:(lia)) as (la & st' & E & X & N & Z & S).
+      rewrite E. eexists. split; [reflexivity|]. cbn [l_attr l_aw]. split; [exact X | repeat split; assumption].
     + destruct (attrrange_point isb text attrs (l_aw ls) (l_attr ls) o ilen Hn Haw Hla Hz H2 H4) as (la & st' & E & X & N & Z & S).
       rewrite E. eexists. split; [reflexivity|]. cbn [l_attr l_aw]. split; [exact X | repeat split; assumption].
   - destruct Hwf as [H1 H2]. destruct (sc <? 0) eqn:E0; [lia|]. change (0 =? 0) with true. cbn [negb].
-    destruct (o =? 0) eqn:E1; cbn [negb].
-    + destruct (sc =? 0) eqn:E2; cbn [negb].
-      * exists ls. split; [reflexivity|]. replace sc with 0 by lia. cbn. rewrite app_nil_r. split; [reflexivity | repeat split; assumption].
-      * eexists. split; [reflexivity|]. cbn [l_attr l_aw]. split; [|repeat split; try assumption].
-        -- rewrite expand_app. cbn [expand]. now rewrite app_nil_r.
-        -- apply nonneg_app. split; [assumption|]. apply nonneg_cons; cbn [snd]; split; [lia | constructor].
-        -- apply Forall_app. split; [assumption|]. constructor; [cbn [snd]; lia | constructor].
-    + destruct (sc =? 0) eqn:E2; cbn [negb].
-      * exists ls. split; [reflexivity|]. replace sc with 0 by lia. cbn. rewrite app_nil_r. split; [reflexivity | repeat split; assumption].
-      * destruct (attrrange_point isb text attrs (l_aw ls) (l_attr ls) o sc Hn Haw Hla Hz H2 H1) as (la & st' & E & X & N & Z & S).
-        rewrite E. eexists. split; [reflexivity|]. cbn [l_attr l_aw]. split; [exact X | repeat split; assumption].
+    destruct (sc =? 0) eqn:E2; cbn [negb].
+    + exists ls. split; [reflexivity|]. replace sc with 0 by lia. cbn. rewrite app_nil_r. split; [reflexivity | repeat split; assumption].
+    + destruct (attrrange_point isb text attrs (l_aw ls) (l_attr ls) o sc Hn Haw Hla Hz H2 H1) as (la & st' & E & X & N & Z & S).
+      rewrite E. eexists. split; [reflexivity|]. cbn [l_attr l_aw]. split; [exact X | repeat split; assumption].
   - change (0 =? 0) with true. cbn [negb].
     destruct (sc =? 0) eqn:E2; cbn [negb].
     + exists ls. split; [reflexivity|]. replace sc with 0 by lia. cbn. rewrite app_nil_r. split; [reflexivity | repeat split; assumption].
